@@ -3,6 +3,7 @@ import collections
 import socket
 
 from ..lib import lean, rng as rnglib
+from ..sim import transport04 as T
 from ..translate import ipmb as tr
 
 ID = 'C09'
@@ -32,6 +33,15 @@ RULE = ('request side: routing depths 1..4 (thorough 1..8) built through Target.
         'encode_bridged_message(target.routing, ...) is compared with the Lean model of the set_routing history '
         '(Target.reroute) and peeled against the path configured LAST, and the real Rmcp transport is run with that '
         'Target; two Target objects re-routed in interleaved order, each judged against its own last path.  '
+        'The other native transports: the real IpmbDev.send_and_receive_raw / Aardvark.send_and_receive_raw and both '
+        'is_ipmc_accessible (fake /dev/ipmb fd / fake pyaardvark adapter, virtual clock) with Targets of routing depth '
+        '0 (none), 1 (the hop names the interface and the target) and 2..4 (thorough ..8), built through '
+        'Target(routing=...) / set_routing in list and string form, also re-routed on ONE Target object (judged by the '
+        'path configured last); the matching reply of whoever owns the target\'s address on the LOCAL bus is ready to be '
+        'read.  Whatever the transport writes is peeled by the chain of specification bridges: it must be the nest for '
+        'the routing - or nothing at all may be written (an exception raised before the first write); a one-hop '
+        'routing must send the plain request and return the target\'s reply.  Real code vs the Lean step model '
+        '(Loops.i2cRequest / i2cProbe, refusal variant probed per transport).  '
         'Distinct by (op, routing, header, bytes / script); non-trivial = depth >= 2 or at least one wrapping layer.')
 ASSUMPTIONS = [
     'encode_send_message / encode_bridged_message / decode_bridged_message and the bridging branch of '
@@ -50,7 +60,19 @@ ASSUMPTIONS = [
     'Target.set_routing is modelled as REPLACING the stored path (Model/Bridge.lean: Target.setRouting / reroute / '
     'request; theorems reroute_last, reroute_peel_all); tied by the re-routing histories on one real Target object',
 ]
-TRUSTED = ['harness/translate/ipmb.py', 'harness/props/c09.py']
+ASSUMPTIONS += [
+    '"for any routing path ... the transmitted request is a nest of Send Message commands" names no transport: it is judged on '
+    'all three native transports that consume Target.routing.  ipmb-dev and Aardvark do not implement bridging; what the '
+    'property demands of them is that no routed request is transmitted as anything BUT the nest - refusing the target '
+    '(NotSupportedError before the first write: nothing is transmitted) satisfies it, transmitting the un-bridged request to the '
+    'local bus does not.  Their step models are C04\'s (Model/IpmbDevLoop.lean, tied statement by statement by '
+    'Props.C04.source_shape_ipmbdev / _aardvark); which state of the guard (I2cCfg.refuseRouted) a transport has is probed '
+    'with the witness of i2c_routing_ignored_asShipped_counterexample',
+    'on ipmb-dev / Aardvark a one-hop routing is generated consistent with the interface (hop = (slave address, '
+    'target.ipmb_address)): these transports address the request from slave_address to target.ipmb_address and a '
+    'description that contradicts itself is not judged; slave and target addresses are even (an I2C address has 7 bits)',
+]
+TRUSTED = ['harness/translate/ipmb.py', 'harness/props/c09.py', 'harness/sim/transport04.py (fake fd / adapter / clock)']
 
 FIELDS = ('rs_sa', 'rs_lun', 'netfn', 'rq_sa', 'rq_lun', 'rq_seq', 'cmdid')
 BITS = (8, 2, 6, 8, 2, 6, 8)
@@ -585,6 +607,170 @@ def judge_transport(ctx, drv, sc, check_model=True):
 
 
 # ---------------------------------------------------------------------------------------
+# the ipmb-dev and Aardvark transports: the nest, or nothing at all
+# ---------------------------------------------------------------------------------------
+
+I2C_TRANSPORTS = ('ipmbdev', 'aardvark')
+_i2c_variant = {}
+
+
+def _i2c_req(sc):
+    """(header of the request as these transports put it on the local bus, payload)"""
+    seq = (sc['seq0'] + 1) % 64
+    if sc.get('probe'):
+        return (sc['target'], 0, 6, sc['slave'], 0, seq, 1), b''
+    return (sc['target'], sc['lun'], sc['netfn'], sc['slave'], 0, seq, sc['cmd']), lean.unhex(sc['data'])
+
+
+def real_i2c(sc, events):
+    """one request (or is_ipmc_accessible) on a fresh ipmb-dev / Aardvark interface object"""
+    rig = T.IpmbDevRig() if sc['transport'] == 'ipmbdev' else T.AardvarkRig()
+    try:
+        rig.iface.slave_address = sc['slave']
+        rig.iface.next_sequence_number = sc['seq0']
+        if sc['routing']:
+            t = _routing_objs(sc['routing'], sc.get('as_string', False), sc.get('history'))
+            t.ipmb_address = sc['target']
+        else:
+            from pyipmi import Target
+            t = Target(sc['target'])
+        if sc.get('probe'):
+            r = T.run_i2c_probe(rig, sc['target'], events, target=t)
+        else:
+            req = {'rs_sa': sc['target'], 'netfn': sc['netfn'], 'lun': sc['lun'], 'cmd': sc['cmd'], 'payload': sc['data'].replace('-', '')}
+            r = T.run_i2c(rig, req, events, target=t)
+    finally:
+        rig.close()
+    out = r['out']
+    return {'out': ('ok ' + lean.hexs(out[1])) if out[0] == 'ok' else out[0], 'tx': r['tx'], 'seq': r['seq']}
+
+
+def i2c_witness(tr_name):
+    """Props.C09.i2c_routing_ignored_asShipped_counterexample: Get Device ID for the MMC 72h behind the carrier IPMC 82h"""
+    return {'transport': tr_name, 'probe': False, 'routing': [(0x20, 0x82, 7), (0x20, 0x72, 0)], 'slave': 0x20,
+            'target': 0x72, 'lun': 0, 'netfn': 6, 'cmd': 1, 'data': '-', 'seq0': 0, 'body': '0051'}
+
+
+def i2c_variants():
+    """{transport: 1 (a target behind a bridge is refused before anything is written) | 0 (routing ignored)}"""
+    if not _i2c_variant:
+        for t in I2C_TRANSPORTS:
+            r = real_i2c(i2c_witness(t), [['F', 2, '201cc4720401005138']])
+            _i2c_variant[t] = 1 if (r['out'] == 'NotSupportedError' and not r['tx']) else 0
+    return _i2c_variant
+
+
+def judge_i2c(ctx, drv, sc, check_model=True):
+    case = dict(sc)
+    case['op'] = 'i2c'
+    case['routing'] = [list(r) for r in sc['routing']]
+    tname, routing, probe = sc['transport'], sc['routing'], bool(sc.get('probe'))
+    hdr, payload = _i2c_req(sc)
+    seq = hdr[5]
+    reply = drv.ask('mkreply %s %s' % (hs(hdr), sc['body']))
+    events = [['F', 2, reply]]
+    before = len(_all_paths)
+    r = real_i2c(sc, events)
+    tx = r['tx']
+    tx0 = tx[0] if tx and tx[0] is not None else None
+    if check_model:
+        line = '%s %s %d %d %d %s %d' % ('i2cprobe' if probe else 'i2c', 'd' if tname == 'ipmbdev' else 'a', i2c_variants()[tname],
+                                       sc['slave'], sc['seq0'], rt(routing), sc['target'])
+        if not probe:
+            line += ' %d %d %d %s' % (sc['netfn'], sc['lun'], sc['cmd'], lean.hexs(payload))
+        m = drv.ask(line + ' F2:' + reply)
+        code = '%s seq=%d sends=%d tx=%s' % (r['out'], r['seq'], len(tx), lean.hexs(tx0) if tx0 is not None else '?')
+        if probe and code.startswith('ok -'):
+            pass
+        if m != code:
+            ctx.disagree('%s %s' % (tname, 'is_ipmc_accessible' if probe else 'tx'), case, m, code)
+    suffix = ':is_ipmc_accessible' if probe else ''
+    what_fn = '%s.%s' % ('IpmbDev' if tname == 'ipmbdev' else 'Aardvark', 'is_ipmc_accessible' if probe else 'send_and_receive_raw')
+
+    def violate(sig, what, expected, observed):
+        c = dict(case, process_before=_process_before(before, routing)) if before else case
+        ctx.violate(sig, what, c, expected, observed)
+
+    n = max(0, len(routing) - 1)
+    if not tx:
+        if r['out'].startswith('ok'):
+            violate('C09:%s:no-frame%s' % (tname, suffix), '%s returns a result although nothing was written' % what_fn,
+                    'a request on the wire, or an error', r['out'])
+            return False
+        if n == 0:
+            violate('C09:%s:unrouted-refused%s' % (tname, suffix),
+                    '%s refuses a target that sits on the local bus (%s)' % (what_fn, 'one-hop routing' if routing else 'no routing'),
+                    'the plain request', r['out'])
+            return False
+        return True                 # refused before anything was written: no routed request left the transport
+    # something was written: it must be the nest for the routing (depth 0: the plain request)
+    want_inner = 'some %s %s' % (hs(hdr), lean.hexs(payload))
+    peeled = drv.ask('peel %d %s' % (n, lean.hexs(tx0))) if tx0 is not None else 'none'
+    ok = peeled != 'none'
+    if ok:
+        _, hops_s, inner = peeled.split()
+        hops = [] if hops_s == '-' else [tuple(int(x) for x in h.split(':')) for h in hops_s.split(';')]
+        ok = hops == [(x[1], x[0], x[2], 1, seq) for x in routing[:-1]] and drv.ask('parse ' + inner) == want_inner
+    if not ok:
+        if n >= 1:
+            plain = tx0 is not None and drv.ask('parse ' + lean.hexs(tx0)) == want_inner
+            violate('C09:%s:routing-ignored%s' % (tname, suffix),
+                    '%s ignores Target.routing: the request for a target behind %d bridge(s) is written %s (I2C address %02xh) '
+                    'instead of the Send Message nest, and %s' % (
+                        what_fn, n, 'UN-BRIDGED to the local bus' if plain else 'to the local bus in a form no bridge accepts',
+                        (tx0[0] >> 1) if tx0 else 0,
+                        'the answer of whoever owns that address there is returned as the routed target\'s'
+                        if r['out'].startswith('ok') else 'the call ends with %s' % r['out']),
+                    'a nest of %d Send Message request(s) (first layer addressed to bridge %02xh, channel %d) or an error before '
+                    'anything is written' % (n, routing[0][1], routing[0][2] or 0),
+                    '%s on the wire; result %s' % (lean.hexs(tx0) if tx0 is not None else repr(tx[0]), r['out']))
+        else:
+            violate('C09:%s:plain-request%s' % (tname, suffix), '%s does not write the request for a target on the local bus' % what_fn,
+                    want_inner, '%s <- %s' % (peeled, lean.hexs(tx0) if tx0 is not None else repr(tx[0])))
+        return False
+    if n == 0:
+        want = 'ok -' if probe else 'ok ' + sc['body']
+        if r['out'] != want:
+            violate('C09:%s:plain-reply%s' % (tname, suffix), '%s does not return the reply of a target on the local bus' % what_fn,
+                    want, r['out'])
+            return False
+    return True
+
+
+def _run_i2c(ctx, drv, rng, depths, per_depth):
+    ctx.extra['i2c_routing_variant'] = dict((t, 'refused' if v else 'ignored') for t, v in i2c_variants().items())
+    for tname in I2C_TRANSPORTS:
+        for d in [0] + list(depths):
+            for i in range(per_depth):
+                if ctx.time_left() < 20:
+                    ctx.notes.append('ipmb-dev / Aardvark run stopped early (time budget)')
+                    return
+                slave = rng.choice((0x20, 0x20, 0x82, rnglib.boundary_int(rng, 8))) & 0xfe     # I2C addresses have 7 bits
+                target = rnglib.boundary_int(rng, 8) & 0xfe or 0x72
+                routing = gen_routing(rng, d)
+                if d:
+                    routing[-1] = (slave if d == 1 else routing[-1][0], target, routing[-1][2])
+                if d == 1:
+                    routing = [(slave, target, 0)]
+                sc = {'transport': tname, 'probe': i % 3 == 2, 'routing': routing, 'slave': slave, 'target': target,
+                      'lun': rng.randrange(4), **_netfn_cmd(rng), 'data': lean.hexs(gen_bytes(rng, rng.choice((0, 1, 5, rng.randrange(0, 41))))),
+                      'seq0': rng.choice((0, 62, 63, rng.randrange(64))),
+                      'body': lean.hexs(bytes([rng.choice((0, 0, 0xc1))]) + gen_bytes(rng, rng.randrange(0, 12))),
+                      'as_string': i % 4 == 1}
+                if i == 0 and d == 2:
+                    sc.update(i2c_witness(tname))
+                if d and i % 5 == 4:
+                    # the same Target object was routed differently before (longer / shorter paths)
+                    sc['history'] = [[[list(x) for x in gen_routing(rng, rng.randrange(1, 5))], rng.choice(FORMS)]
+                                     for _ in range(rng.randrange(1, 3))]
+                ctx.case(('i2c', repr(sorted((k, repr(v)) for k, v in sc.items()))), nontrivial=d >= 2)
+                ctx.count('i2c:%s:depth-%d' % (tname, d))
+                ctx.count('i2c:%s' % ('is_ipmc_accessible' if sc['probe'] else 'request'))
+                judge_i2c(ctx, drv, sc)
+    ctx.sample({'op': 'i2c', 'scenario': i2c_witness('ipmbdev')})
+
+
+# ---------------------------------------------------------------------------------------
 # run
 # ---------------------------------------------------------------------------------------
 
@@ -931,6 +1117,7 @@ def run(ctx):
     _run_unwrap(ctx, drv, rng, depths[-1], 100 if quick else 400, codes)
     _run_reroute(ctx, drv, ctx.rng('c09-reroute'), 60 if quick else 1500, depths[-1])
     _run_two_targets(ctx, drv, ctx.rng('c09-two-targets'), 40 if quick else 600, depths[-1])
+    _run_i2c(ctx, drv, ctx.rng('c09-i2c'), depths, 12 if quick else 120)
     _run_transport_cmd34(ctx, drv, ctx.rng('c09-cmd34'), depths)
     _run_transport_faults(ctx, drv, ctx.rng('c09-faults'), depths)
     _run_transport(ctx, drv, rng, depths, 12 if quick else 60)
@@ -950,6 +1137,8 @@ def search(ctx):
         _run_unwrap(ctx, drv, rng, 6, 60, codes)
     if not ctx.violations:
         _run_reroute(ctx, drv, rng, 200, 6)
+    if not ctx.violations:
+        _run_i2c(ctx, drv, rng, [1, 2, 3, 4, 5], 40)
     if not ctx.violations:
         _run_transport_cmd34(ctx, drv, rng, [1, 2, 3, 4, 5])
     if not ctx.violations:
@@ -1002,6 +1191,24 @@ def replay(ctx, v):
         print('  code     : %s' % real_unwrap(frame, verify))
         print('  expected : %s' % case['expect'])
         judge_unwrap(c2, drv, frame, case['expect'], case['kind'], None, verify)
+    elif op == 'i2c':
+        sc = dict(case)
+        sc['routing'] = [tuple(r) for r in case['routing']]
+        hdr, payload = _i2c_req(sc)
+        print('%s.%s, slave address %02xh, target.ipmb_address %02xh, target.routing %s' % (
+            'IpmbDev' if sc['transport'] == 'ipmbdev' else 'Aardvark',
+            'is_ipmc_accessible' if sc.get('probe') else 'send_and_receive_raw netFn %02xh cmd %02xh' % (sc['netfn'], sc['cmd']),
+            sc['slave'], sc['target'], sc['routing'] or 'none'))
+        for path, form in sc.get('history') or []:
+            print('  the same Target object was routed before (%s): %s' % (form, [tuple(r) for r in path]))
+        reply = drv.ask('mkreply %s %s' % (hs(hdr), sc['body']))
+        r = real_i2c(sc, [['F', 2, reply]])
+        print('  ready to be read on the local bus: %s (reply of whoever owns %02xh there)' % (reply, sc['target']))
+        print('  written : %s' % ([lean.hexs(f) if f is not None else '?' for f in r['tx']] or 'nothing'))
+        print('  result  : %s' % r['out'])
+        judge_i2c(c2, drv, sc, check_model=False)
+        for x in c2.violations:
+            print('  expected %s' % x['expected'])
     elif op == 'transport':
         sc = dict(case)
         sc['routing'] = [tuple(r) for r in case['routing']]
